@@ -168,6 +168,13 @@ def main():
         return 2
     if pid == 'C18':
         return check_c18(a, seed, t0)
+    if pid in props.NEEDS_MODEL_FACTS:
+        import model_facts
+        if not model_facts.stamp_ok():
+            print('model facts stamp missing or stale: running tools/model_facts.py')
+            if not model_facts.run():
+                print('UNDECIDED property=%s reason=model facts (verified executable checker) could not be established' % pid)
+                return 2
     try:
         V = verify_tree()
     except vrun.Undecided as e:
